@@ -86,6 +86,7 @@ func runC13(c *ctx) {
 		}
 	}
 	for vi, v := range variants {
+		globalPkceMethods = [][]string{nil, {"plain", "S256"}, {"plain"}, {"S256", "plain"}}[vi%4]
 		s := newSut(sutOpts{ingresses: v.ings, par: v.par, clientSecret: v.secret, acr: v.acr, locale: v.locale, sidRequired: true, secure: false, acrSupported: v.acrSup, locSupported: v.locSup})
 		rp := s.replica("A")
 		var pubSet jwk.Set
@@ -278,6 +279,7 @@ func runC13(c *ctx) {
 		}
 		s.close()
 	}
+	globalPkceMethods = nil
 	// concurrent login visits (16 at a time on one replica): the per-attempt secrets must stay pairwise distinct and every visit must succeed -
 	// a random source that is shared without synchronisation hands the same bytes to two visits, or breaks
 	{
